@@ -14,3 +14,4 @@ import PolyVerif.Props.C15
 import PolyVerif.Props.C14
 import PolyVerif.Props.C18
 import PolyVerif.Props.C02
+import PolyVerif.Props.C20
